@@ -235,7 +235,14 @@ func withinQuantum(n, g ref.Num, dp int) *Violation {
 }
 
 func genDP(t *rapid.T, n ref.Num) int {
-	switch ir(t, 0, 9, "dpKind") {
+	switch ir(t, 0, 10, "dpKind") {
+	case 10:
+		// a dp that is ordinary only after narrowing to 16 or 32 bits
+		base := ir(t, -45, 45, "dpBase")
+		if n.Class == ref.Finite {
+			base = -(n.Exp + ir(t, -2, ref.DecLen(n.Coef)+3, "j"))
+		}
+		return genWrapInt(t, base)
 	case 0, 1, 2, 3, 4:
 		// near d's own digits
 		nd := 1
